@@ -4,13 +4,13 @@
      D2  arb_float_decide d = AVPanicsOn bs  -> the generator panics on bs;
      D3  examples by vm_compute.
    Every shape is discharged by the theorem of Lemmas/ArbFloatValid.v, ArbFloatExcl.v,
-   ArbFloatExcl2.v that Props/C09.v exposes for it. *)
+   ArbFloatExcl2.v, ArbFloatExcl3.v for it. *)
 From Coq Require Import ZArith Lia List Bool.
 From NV Require Import Base.Util Base.IntTy Base.FloatBits Base.Float Base.Expr
      Macro.Surface Macro.Ast Sem.Guard Sem.Value Sem.Eval Sem.Bytes Sem.ArbFloat Sem.ArbFloatDecide
      Spec.GuardSpec
      Lemmas.GuardLemmas Lemmas.ArbFloatLemmas Lemmas.ArbFloatValid Lemmas.ArbFloatExcl
-     Lemmas.ArbFloatExcl2.
+     Lemmas.ArbFloatExcl2 Lemmas.ArbFloatExcl3.
 Local Open Scope Z_scope.
 
 (* ====================================================================================== *)
@@ -357,14 +357,18 @@ Section Valid.
         * rewrite (holds_ge d is64 bl x Hf), f_ge_le_swap. exact H1.
         * rewrite (holds_le d is64 bu x Hf). exact H2.
       + (* [L, U) *)
-        destruct (f_le is64 (bval d bl) (f_sub is64 (bval d bu) (correction_delta is64))) eqn:Hc1;
-          [|discriminate H].
         rewrite dec_xmax_eq in H.
-        destruct (f_lt is64 (f_sub is64 (f_xmax is64 (bval d bl) (bval d bu)) (correction_delta is64))
-                        (bval d bu)) eqn:Hc2.
-        2:{ destruct (f_ge is64 (f_xmax is64 (bval d bl) (bval d bu)) (bval d bu)); discriminate H. }
-        destruct (arb_float_incl_excl_ok lib d is64 vs bl bu bs Hf Hs Hv Hin Hfb Hb Hr Hc1 Hc2)
-          as (x & Hx & H1 & H2 & H3).
+        assert (Hex : exists x, arb_float lib d bs = OOk (VF x) /\
+                  f_le is64 (bval d bl) x = true /\ f_lt is64 x (bval d bu) = true /\ f_is_finite is64 x = true).
+        { destruct (f_lt is64 (f_xmax is64 (bval d bl) (bval d bu)) (bval d bu)) eqn:Hc0.
+          - exact (arb_float_incl_excl_no_overshoot_ok lib d is64 vs bl bu bs Hf Hs Hv Hin Hfb Hb Hr Hc0).
+          - destruct (f_lt is64 (f_sub is64 (f_xmax is64 (bval d bl) (bval d bu)) (correction_delta is64))
+                           (bval d bu)) eqn:Hc2.
+            2:{ destruct (f_ge is64 (f_xmax is64 (bval d bl) (bval d bu)) (bval d bu)); discriminate H. }
+            destruct (f_le is64 (bval d bl) (f_sub is64 (bval d bu) (correction_delta is64))) eqn:Hc1.
+            2:{ match type of H with (if ?c then _ else _) = _ => destruct c; discriminate H end. }
+            exact (arb_float_incl_excl_ok lib d is64 vs bl bu bs Hf Hs Hv Hin Hfb Hb Hr Hc1 Hc2). }
+        destruct Hex as (x & Hx & H1 & H2 & H3).
         exists (VF x). split; [exact Hx|].
         apply (spec_valid_three d vs x _ _ _ Hv Hin).
         * rewrite (holds_finite d is64 x Hf). exact H3.
@@ -383,7 +387,8 @@ Section Valid.
         * rewrite (holds_le d is64 bu x Hf). exact H2.
       + (* (L, U) *)
         rewrite dec_xmax_eq in H.
-        match type of H with (if ?c then _ else _) = _ => destruct c eqn:Hc; [|discriminate H] end.
+        match type of H with (if ?c then _ else _) = _ => destruct c eqn:Hc end.
+        2:{ repeat match type of H with (if ?c then _ else _) = _ => destruct c end; discriminate H. }
         apply andb_true_iff in Hc. destruct Hc as [Hc Hc4].
         apply andb_true_iff in Hc. destruct Hc as [Hc Hc3].
         apply andb_true_iff in Hc. destruct Hc as [Hc1 Hc2].
@@ -415,14 +420,26 @@ Section Valid.
           exists (VF x). split; [exact Hx|].
           apply (spec_valid_of_holds d _ _ Hv). intros w [<-|[]].
           rewrite (holds_ge d is64 bl x Hf). exact H1.
-      + destruct fin; [discriminate H|].
-        destruct (f_gt is64 (f_add is64 (bval d bl) (correction_delta is64)) (bval d bl)) eqn:Hc;
+      + destruct (f_gt is64 (f_add is64 (bval d bl) (correction_delta is64)) (bval d bl)) eqn:Hc;
           [|discriminate H].
-        pose proof (arb_nf_shape_lower vs _ Hnf) as Hsh. cbn [nf_lower fst snd] in Hsh. subst vs.
-        destruct (arb_float_lower_excl_ok lib d is64 bl bs Hf Hs Hv HL Hc) as (x & Hx & H1).
-        exists (VF x). split; [exact Hx|].
-        apply (spec_valid_of_holds d _ _ Hv). intros w [<-|[]].
-        rewrite (holds_gt d is64 bl x Hf). exact H1.
+        destruct fin.
+        * rewrite dec_max_finite_eq in H.
+          destruct (f_is_finite is64 (f_add is64 (max_finite is64) (bval d bl))) eqn:Hov; [|discriminate H].
+          pose proof (arb_nf_shape_finite_lower vs _ Hnf) as Hsh. cbn [nf_lower fst snd] in Hsh.
+          destruct (arb_float_finite_lower_excl_ok lib d is64 vs bl bs Hf Hs Hv Hsh HL Hc Hov)
+            as (x & Hx & H1 & H2).
+          exists (VF x). split; [exact Hx|].
+          apply (spec_valid_of_holds d vs _ Hv). intros w Hw.
+          assert (Hw' : w = VFinite \/ w = VGreater bl).
+          { destruct Hsh as [-> | ->]; cbn [In] in Hw; intuition auto. }
+          destruct Hw' as [-> | ->].
+          -- rewrite (holds_finite d is64 x Hf). exact H1.
+          -- rewrite (holds_gt d is64 bl x Hf). exact H2.
+        * pose proof (arb_nf_shape_lower vs _ Hnf) as Hsh. cbn [nf_lower fst snd] in Hsh. subst vs.
+          destruct (arb_float_lower_excl_ok lib d is64 bl bs Hf Hs Hv HL Hc) as (x & Hx & H1).
+          exists (VF x). split; [exact Hx|].
+          apply (spec_valid_of_holds d _ _ Hv). intros w [<-|[]].
+          rewrite (holds_gt d is64 bl x Hf). exact H1.
     - (* one upper bound *)
       destruct (f_is_finite is64 (bval d bu)) eqn:HU; [|discriminate H].
       destruct ui.
@@ -445,14 +462,27 @@ Section Valid.
           exists (VF x). split; [exact Hx|].
           apply (spec_valid_of_holds d _ _ Hv). intros w [<-|[]].
           rewrite (holds_le d is64 bu x Hf). exact H1.
-      + destruct fin; [discriminate H|].
-        destruct (f_lt is64 (f_sub is64 (bval d bu) (correction_delta is64)) (bval d bu)) eqn:Hc;
+      + destruct (f_lt is64 (f_sub is64 (bval d bu) (correction_delta is64)) (bval d bu)) eqn:Hc;
           [|discriminate H].
-        pose proof (arb_nf_shape_upper vs _ Hnf) as Hsh. cbn [nf_upper fst snd] in Hsh. subst vs.
-        destruct (arb_float_upper_excl_ok lib d is64 bu bs Hf Hs Hv HU Hc) as (x & Hx & H1).
-        exists (VF x). split; [exact Hx|].
-        apply (spec_valid_of_holds d _ _ Hv). intros w [<-|[]].
-        rewrite (holds_lt d is64 bu x Hf). exact H1.
+        destruct fin.
+        * rewrite dec_max_finite_eq in H.
+          destruct (f_is_finite is64 (f_add is64 (fb_neg is64 (max_finite is64)) (bval d bu))) eqn:Hov;
+            [|discriminate H].
+          pose proof (arb_nf_shape_finite_upper vs _ Hnf) as Hsh. cbn [nf_upper fst snd] in Hsh.
+          destruct (arb_float_finite_upper_excl_ok lib d is64 vs bu bs Hf Hs Hv Hsh HU Hc Hov)
+            as (x & Hx & H1 & H2).
+          exists (VF x). split; [exact Hx|].
+          apply (spec_valid_of_holds d vs _ Hv). intros w Hw.
+          assert (Hw' : w = VFinite \/ w = VLess bu).
+          { destruct Hsh as [-> | ->]; cbn [In] in Hw; intuition auto. }
+          destruct Hw' as [-> | ->].
+          -- rewrite (holds_finite d is64 x Hf). exact H1.
+          -- rewrite (holds_lt d is64 bu x Hf). exact H2.
+        * pose proof (arb_nf_shape_upper vs _ Hnf) as Hsh. cbn [nf_upper fst snd] in Hsh. subst vs.
+          destruct (arb_float_upper_excl_ok lib d is64 bu bs Hf Hs Hv HU Hc) as (x & Hx & H1).
+          exists (VF x). split; [exact Hx|].
+          apply (spec_valid_of_holds d _ _ Hv). intros w [<-|[]].
+          rewrite (holds_lt d is64 bu x Hf). exact H1.
     - (* no bound *)
       destruct fin.
       + pose proof (arb_nf_shape_finite vs Hnf) as Hsh. subst vs.
@@ -482,11 +512,17 @@ Section Valid.
       destruct li, ui.
       + destruct (f_le is64 (bval d bl) (bval d bu)); discriminate H.
       + (* [L, U): the all-ones input *)
-        destruct (f_le is64 (bval d bl) (f_sub is64 (bval d bu) (correction_delta is64))) eqn:Hc1;
-          [|discriminate H].
         rewrite dec_xmax_eq in H.
+        destruct (f_lt is64 (f_xmax is64 (bval d bl) (bval d bu)) (bval d bu)); [discriminate H|].
         destruct (f_lt is64 (f_sub is64 (f_xmax is64 (bval d bl) (bval d bu)) (correction_delta is64))
-                        (bval d bu)) eqn:Hc2; [discriminate H|].
+                        (bval d bu)) eqn:Hc2.
+        { destruct (f_le is64 (bval d bl) (f_sub is64 (bval d bu) (correction_delta is64))); [discriminate H|].
+          match type of H with (if ?c then _ else _) = _ => destruct c eqn:Hc; [|discriminate H] end.
+          inversion H; subst bs.
+          apply andb_true_iff in Hc. destruct Hc as [Hc3 Hc4].
+          pose proof (arb_nf_lower_in vs _ _ _ Hnf) as Hin. cbn [nf_lower fst snd] in Hin.
+          exact (arb_float_incl_excl_overcorrect_panic_ones lib d is64 vs bl (bval d bu)
+                   Hf Hs Hv Hin Hfb Hc3 Hc4). }
         destruct (f_ge is64 (f_xmax is64 (bval d bl) (bval d bu)) (bval d bu)) eqn:Hc3; [|discriminate H].
         inversion H; subst bs.
         pose proof (arb_nf_upper_in vs _ _ _ Hnf) as Hin. cbn [nf_upper fst snd] in Hin.
@@ -500,29 +536,57 @@ Section Valid.
         pose proof (arb_nf_lower_in vs _ _ _ Hnf) as Hin. cbn [nf_lower fst snd] in Hin.
         exact (arb_float_excl_incl_absorbed_panic lib d is64 vs bl (bval d bu) []
                  Hf Hs Hv Hin Hfb Hr Hc1 Hc2 (arb_uint_nil_fst is64)).
-      + match type of H with (if ?c then _ else _) = _ => destruct c; discriminate H end.
+      + (* (L, U): the empty input or the all-ones input *)
+        rewrite dec_xmax_eq in H.
+        match type of H with (if ?c then _ else _) = _ => destruct c; [discriminate H|] end.
+        match type of H with (if ?c then _ else _) = _ => destruct c eqn:Hc end.
+        * inversion H; subst bs.
+          apply andb_true_iff in Hc. destruct Hc as [Hc1 Hc2]. apply negb_true_iff in Hc2.
+          pose proof (arb_nf_lower_in vs _ _ _ Hnf) as Hin. cbn [nf_lower fst snd] in Hin.
+          exact (arb_float_excl_excl_absorbed_panic lib d is64 vs bl (bval d bu) []
+                   Hf Hs Hv Hin Hfb Hr Hc1 Hc2 (arb_uint_nil_fst is64)).
+        * clear Hc.
+          match type of H with (if ?c then _ else _) = _ => destruct c eqn:Hc end.
+          -- inversion H; subst bs.
+             apply andb_true_iff in Hc. destruct Hc as [Hc Hc3].
+             apply andb_true_iff in Hc. destruct Hc as [Hc1 Hc2]. apply negb_true_iff in Hc2.
+             pose proof (arb_nf_upper_in vs _ _ _ Hnf) as Hin. cbn [nf_upper fst snd] in Hin.
+             exact (arb_float_excl_excl_overshoot_panic_ones lib d is64 vs bu (bval d bl)
+                      Hf Hs Hv Hin Hfb Hr Hc1 Hc2 Hc3).
+          -- clear Hc.
+             match type of H with (if ?c then _ else _) = _ => destruct c eqn:Hc; [|discriminate H] end.
+             inversion H; subst bs.
+             apply andb_true_iff in Hc. destruct Hc as [Hc Hc3].
+             apply andb_true_iff in Hc. destruct Hc as [Hc1 Hc2].
+             pose proof (arb_nf_lower_in vs _ _ _ Hnf) as Hin. cbn [nf_lower fst snd] in Hin.
+             exact (arb_float_excl_excl_overcorrect_panic_ones lib d is64 vs bl (bval d bu)
+                      Hf Hs Hv Hin Hfb Hc1 Hc2 Hc3).
     - (* one lower bound *)
+      pose proof (arb_nf_fboundaries d vs _ _ _ Hnf) as Hfb. cbn [nf_fb] in Hfb.
       destruct (f_is_finite is64 (bval d bl)) eqn:HL; [|discriminate H].
       destruct li.
       + destruct fin; [|discriminate H].
         match type of H with (if ?c then _ else _) = _ => destruct c; discriminate H end.
-      + destruct fin; [discriminate H|].
-        destruct (f_gt is64 (f_add is64 (bval d bl) (correction_delta is64)) (bval d bl)) eqn:Hc;
-          [discriminate H|].
+      + destruct (f_gt is64 (f_add is64 (bval d bl) (correction_delta is64)) (bval d bl)) eqn:Hc.
+        { destruct fin; [|discriminate H].
+          match type of H with (if ?c then _ else _) = _ => destruct c; discriminate H end. }
         inversion H; subst bs.
-        pose proof (arb_nf_shape_lower vs _ Hnf) as Hsh. cbn [nf_lower fst snd] in Hsh. subst vs.
-        exact (proj1 (arb_float_lower_excl_absorbed_panic_nil lib d is64 bl Hf Hs Hv HL Hc)).
+        pose proof (arb_nf_lower_in vs _ _ _ Hnf) as Hin. cbn [nf_lower fst snd] in Hin.
+        exact (arb_float_lower_excl_absorbed_panic_in lib d is64 vs bl [] Hf Hs Hv Hin Hfb HL Hc
+                 (arb_uint_nil_fst is64)).
     - (* one upper bound *)
+      pose proof (arb_nf_fboundaries d vs _ _ _ Hnf) as Hfb. cbn [nf_fb] in Hfb.
       destruct (f_is_finite is64 (bval d bu)) eqn:HU; [|discriminate H].
       destruct ui.
       + destruct fin; [|discriminate H].
         match type of H with (if ?c then _ else _) = _ => destruct c; discriminate H end.
-      + destruct fin; [discriminate H|].
-        destruct (f_lt is64 (f_sub is64 (bval d bu) (correction_delta is64)) (bval d bu)) eqn:Hc;
-          [discriminate H|].
+      + destruct (f_lt is64 (f_sub is64 (bval d bu) (correction_delta is64)) (bval d bu)) eqn:Hc.
+        { destruct fin; [|discriminate H].
+          match type of H with (if ?c then _ else _) = _ => destruct c; discriminate H end. }
         inversion H; subst bs.
-        pose proof (arb_nf_shape_upper vs _ Hnf) as Hsh. cbn [nf_upper fst snd] in Hsh. subst vs.
-        exact (proj1 (arb_float_upper_excl_absorbed_panic_nil lib d is64 bu Hf Hs Hv HU Hc)).
+        pose proof (arb_nf_upper_in vs _ _ _ Hnf) as Hin. cbn [nf_upper fst snd] in Hin.
+        exact (arb_float_upper_excl_absorbed_panic_in lib d is64 vs bu [] Hf Hs Hv Hin Hfb HU Hc
+                 (arb_uint_nil_fst is64)).
     - discriminate H.
   Qed.
 End Valid.
@@ -639,6 +703,49 @@ Example decide_f32_one_sided_overflow :
   arb_float_decide (dec_ex (FFloat false) [] [VFinite; VLessOrEqual (BLit 4284688930)]) = AVUnknown.
 Proof. vm_compute. reflexivity. Qed.
 
+(* f64: finite, greater = 0.5 (both orders): the delta is visible at 0.5 and MAX + 0.5 is finite *)
+Example decide_f64_finite_excl_lower :
+  arb_float_decide (dec_ex (FFloat true) [] [VFinite; VGreater (BLit 4602678819172646912)]) = AVTotal /\
+  arb_float_decide (dec_ex (FFloat true) [] [VGreater (BLit 4602678819172646912); VFinite]) = AVTotal.
+Proof. vm_compute. split; reflexivity. Qed.
+
+(* f64: less = 0.5, finite *)
+Example decide_f64_finite_excl_upper :
+  arb_float_decide (dec_ex (FFloat true) [] [VLess (BLit 4602678819172646912); VFinite]) = AVTotal.
+Proof. vm_compute. reflexivity. Qed.
+
+(* f32: finite, greater = 64.0: the delta is absorbed at 64.0 *)
+Example decide_f32_finite_absorbed :
+  arb_float_decide (dec_ex (FFloat false) [] [VFinite; VGreater (BLit 1115684864)]) = AVPanicsOn [].
+Proof. vm_compute. reflexivity. Qed.
+
+(* f32: finite, less = 128.0: 128.0 - 0.000002 rounds back to 128.0 *)
+Example decide_f32_finite_absorbed_upper :
+  arb_float_decide (dec_ex (FFloat false) [] [VFinite; VLess (BLit 1124073472)]) = AVPanicsOn [].
+Proof. vm_compute. reflexivity. Qed.
+
+(* f32: greater = 64.0, less = 65.0: the delta is absorbed at 64.0 *)
+Example decide_f32_open_absorbed :
+  arb_float_decide (dec_ex (FFloat false) [] [VGreater (BLit 1115684864); VLess (BLit 1115815936)])
+  = AVPanicsOn [].
+Proof. vm_compute. reflexivity. Qed.
+
+(* f32: finite, greater = 63.5, less = 65.0: the delta is visible at 63.5 but xmax = 65.0 and
+   65.0 - 0.000002 rounds back to 65.0 *)
+Example decide_f32_open_overshoot :
+  arb_float_decide (dec_ex (FFloat false) [] [VFinite; VGreater (BLit 1115553792); VLess (BLit 1115815936)])
+  = AVPanicsOn [255; 255; 255; 255].
+Proof. vm_compute. reflexivity. Qed.
+
+(* f32: [1e-40, 1e-39) and (1e-40, 1e-39) (subnormal bounds): the range is narrower than the
+   delta, the corrected xmax = 1e-39 - 0.000002 is negative *)
+Example decide_f32_narrow :
+  arb_float_decide (dec_ex (FFloat false) [] [VGreaterOrEqual (BLit 71362); VLess (BLit 713624)])
+  = AVPanicsOn [255; 255; 255; 255] /\
+  arb_float_decide (dec_ex (FFloat false) [] [VGreater (BLit 71362); VLess (BLit 713624)])
+  = AVPanicsOn [255; 255; 255; 255].
+Proof. vm_compute. split; reflexivity. Qed.
+
 (* the verdicts above, read through D1 / D2 *)
 Example decide_f64_unit_interval_valid (lib : fnlib) (bs : bytes) : bytes_ok bs = true ->
   let d := dec_ex (FFloat true) [] [VGreaterOrEqual (BLit 0); VLess (BLit 4607182418800017408)] in
@@ -649,3 +756,15 @@ Example decide_f32_overshoot_panics (lib : fnlib) :
   let d := dec_ex (FFloat false) [] [VGreaterOrEqual (BLit 1115684864); VLess (BLit 1115815936)] in
   arb_float lib d [255; 255; 255; 255] = OPanic.
 Proof. intros d. apply arb_float_decide_panics_sound. exact decide_f32_overshoot. Qed.
+
+Example decide_f64_finite_excl_lower_valid (lib : fnlib) (bs : bytes) : bytes_ok bs = true ->
+  let d := dec_ex (FFloat true) [] [VFinite; VGreater (BLit 4602678819172646912)] in
+  exists v, arb_float lib d bs = OOk v /\ spec_valid lib d v = true.
+Proof.
+  intros Hb d. apply arb_float_decide_total_sound; [exact (proj1 decide_f64_finite_excl_lower) | exact Hb].
+Qed.
+
+Example decide_f32_open_absorbed_panics (lib : fnlib) :
+  let d := dec_ex (FFloat false) [] [VGreater (BLit 1115684864); VLess (BLit 1115815936)] in
+  arb_float lib d [] = OPanic.
+Proof. intros d. apply arb_float_decide_panics_sound. exact decide_f32_open_absorbed. Qed.
